@@ -35,7 +35,8 @@ CHECKS = {
         text="Batch = conjunction is an invariant of the specification over every import relation of the bounded "
              "world (TLC). On the real code each compact rule and its expansion (match set computed with re.match) are "
              "both evaluated and the trace specification requires equal verdicts and messages, an error for empty "
-             "matches, and the conjunction laws on the recorded verdicts.",
+             "matches, and the conjunction laws on the recorded verdicts; worlds with dot look-alikes (p.a.b next to p.a_b) "
+             "bind the literal reading of dots in partial names.",
         design_ref="6 (C11)"),
     "C12": dict(
         technique="TLAPS proofs of the rule algebra for arbitrary graphs (spec/Laws.tla, 179 obligations) bound to "
@@ -58,7 +59,8 @@ CHECKS = {
              "transposition of every complete chain), each is replayed on the real classes and closed with "
              "assert_applies on four architectures; the trace specification requires an error wherever the automaton "
              "classifies the state incomplete or contradictory and at every rejected call. Misspelt / too-deep names on "
-             "random architectures and on level-limited scans, diagrams naming a component that is no module (on "
+             "random architectures and on level-limited scans, badly tagged diagram files (no tags, start only, end only, "
+             "reversed), all well-shaped LayerRule chains and their single-call mutations, diagrams naming a component that is no module (on "
              "architectures that also violate the rest of the diagram) and all 64 entry-point option combinations are "
              "validated the same way.",
         design_ref="6 (C13)"),
@@ -71,8 +73,10 @@ CHECKS = {
              "forms, duplicates forced by two layer names and two module names) is replayed on real objects, each "
              "call's accept/reject outcome and the definition shown by architecture[layer] / str() are validated step "
              "by step; a second vocabulary (three layers, three modules, alternating layer / module calls, all 11 113 "
-             "histories up to six calls) covers guards that must look at every earlier layer; LayerRule histories likewise "
-             "(architecture first, exactly one subject layer).",
+             "histories up to six calls, plus a name that differs from another by a trailing blank only) covers guards that "
+             "must look at every earlier layer; LayerRule histories likewise (architecture first, exactly one subject "
+             "layer), plus all well-shaped chains (every verb x access kind x object layer list); after every LayerRule call "
+             "and evaluation the definition of the architecture it is based on is observed and must be unchanged.",
         design_ref="6 (C16)"),
     "C05": dict(
         technique="TLA+ specification of layer semantics (LayerSem.tla) model-checked with TLC; TLC-emitted states "
@@ -81,7 +85,8 @@ CHECKS = {
              "TLA+ operators; TLC checks on every import relation of a bounded world that dropping unmentioned layers and "
              "adding intra-layer imports never changes an outcome and that singleton layers reduce to module rules. Every "
              "emitted state is replayed with all 12 shapes + aliases x 1-2 object layers for name/regex/mixed definitions, "
-             "plus seeded random worlds; verdict, message lines and layer tags are validated by the trace specification.",
+             "plus seeded random worlds whose layers list unrelated modules at any depth (a layer may repeat a module by one of "
+             "its own descendants); verdict, message lines and layer tags are validated by the trace specification.",
         design_ref="6 (C05)"),
     "C06": dict(
         technique="TLA+ abstract syntax of the documented PlantUML subset (DiagramSem.tla); TLC enumerates diagrams "
@@ -90,7 +95,8 @@ CHECKS = {
              "components and dependor->dependee relation are TLA+ operators, checked by TLC to be independent of line "
              "order. Every documented diagram of up to two lines over the model's alphabet (simple and dotted names) "
              "and seeded random diagrams of 2-6 components with mixed forms, alias/name references and text outside the "
-             "tags are rendered, parsed by the real code, and compared by the trace specification; missing tags must "
+             "tags are rendered, parsed by the real code, and compared by the trace specification; a file that lacks a tag "
+             "(none, start only, end only, end before start - DiagramSem!WellTagged) must "
              "raise a parsing error. The concrete syntax lives in a trusted, self-checked renderer.",
         design_ref="6 (C06)"),
     "C07": dict(
@@ -100,19 +106,26 @@ CHECKS = {
         text="DiagramSem!Conforms states the pairwise reading of C07; TLC proves on every import relation of the bounded "
              "world that it coincides with the conjunction of the generated rules (whose aggregated message is the union "
              "of their lines). Real DiagramRule evaluations (both modes, both naming options, bystanders and sub modules) "
-             "on emitted states and seeded random worlds are validated for verdict and complete aggregated message.",
+             "on emitted states and seeded random worlds are validated for verdict and complete aggregated message; components "
+             "with dotted names two or three levels below a base module, in trees where a package contains a sub package of "
+             "its own name, bind with_base_module(p) to 'p.<component>'.",
         design_ref="6 (C07)"),
     "C02": dict(
         technique="TLA+ specification of import resolution (Scan!Named / MustImports / MayImports) in which a statement's "
                   "position does not occur; TLC enumerates every statement-list position of the running interpreter's "
-                  "grammar x import form (MC_Positions) and every project of a bounded model (MC_Scan); each is rendered "
+                  "grammar x import form x source layout (MC_Positions) and every project of a bounded model (MC_Scan); each is rendered "
                   "to real source files, scanned by the real entry point and validated by Trace_Scan.tla",
         text="What an import statement names (plain, aliased, multi-name, from-name, from-submodule, star, relative levels, "
              "inside __init__) is a TLA+ operator; TLC checks position-independence and the one-statement-adds-exactly-its-"
              "edges law on the model. Every stack of statement-list slots up to the tier's depth (slots enumerated from "
              "ast.<Class>.__doc__) x 9 forms is rendered into source (re-parsed and cross-checked with ast.walk), scanned "
              "with get_evaluable_architecture and the import set compared as must <= observed <= may; each placement "
-             "imports its own target so a lost edge names its position. Seeded random projects add mixed forms and depths.",
+             "imports its own target so a lost edge names its position. The statement's layout in the source text is a third "
+             "dimension of the model (own line / behind a semicolon / on the header line of its compound statement / "
+             "parenthesised over several lines / backslash continuation); files in which no import starts a physical line are "
+             "kept apart. Seeded random projects add mixed forms, depths, layouts and odd file names; real source trees "
+             "found on this machine (the library itself, its test resources, standard-library and site-packages packages) "
+             "are abstracted independently of pytestarch (os.walk + ast) and validated by the same trace specification.",
         design_ref="6 (C02)"),
     "C04": dict(
         technique="TLA+ specification of scanning (Scan!InternalMods, RestrictArch) with the sub-scan / restriction and "
@@ -123,7 +136,8 @@ CHECKS = {
              "names a/ab) that scan(sub) = scan(root) restricted to the sub tree and that parent-relative absolute names "
              "resolve in the sub scan. Each emitted project x every module_path x both entry points, and seeded random trees "
              "(depth <= 5, with and without __init__.py, prefix siblings, odd file names) are scanned by the real code; "
-             "module set, import set, the restrict law, the entry-point law and 'sub modules of' verdicts are validated.",
+             "module set, import set, the restrict law, the entry-point law and 'sub modules of' verdicts are validated; "
+             "likewise for real source trees found on this machine (abstracted with os.walk + ast, harness/wild.py).",
         design_ref="6 (C04)"),
     "C08": dict(
         technique="TLA+ glob semantics (Glob!GlobMatch, character level) model-checked and compared exhaustively with "
@@ -137,7 +151,7 @@ CHECKS = {
              "pattern pairs, literal-text regexes, module_path below the root) and seeded random trees with "
              "regex-metacharacter names are scanned with and without the exclusion (also with externals included: an "
              "excluded module that a remaining file imports must stay away); modules, imports and the 'exactly the "
-             "matching sub trees disappear' law are validated.",
+             "matching sub trees disappear' law are validated - also on real source trees found on this machine.",
         design_ref="6 (C08)"),
     "C09": dict(
         technique="Scan!Quotient; TLC proves on MC_Scan that the quotient preserves the verdict of every strict rule above "
@@ -147,7 +161,8 @@ CHECKS = {
              "components (imports: images of imports, self-imports dropped). Every bounded-model project and seeded "
              "random projects are scanned with k in 1..depth (and beyond) at module_path equal to and below the root, with "
              "and without externals and exclusions (also imports of excluded modules); the trace specification checks the limited scan against the quotient of the unlimited "
-             "scan and that strict rules whose names lie above the limit have the same verdict on both.",
+             "scan and that strict rules whose names lie above the limit have the same verdict on both; directory names with "
+             "non-word characters and real source trees found on this machine are part of the inputs.",
         design_ref="6 (C09)"),
     "C10": dict(
         technique="Scan!ExternalMods / ExternalImports / InternalPart with the internal-part law model-checked on MC_Scan; "
@@ -158,7 +173,8 @@ CHECKS = {
              "ancestor matches an external pattern. Bounded-model projects decorated with nested and look-alike external "
              "imports and seeded random projects are scanned under all option sets (patterns that textually match "
              "internal names included); every scan is compared with the specification and with the default scan through "
-             "the law that the part at or below module_path is identical.",
+             "the law that the part at or below module_path is identical; real source trees found on this machine (with their "
+             "real external imports, and patterns built from those) are scanned the same way.",
         design_ref="6 (C10)"),
     "C14": dict(
         technique="TLA+ names are component sequences compared only by equality/IsPrefix; TLC checks that RuleSem "
@@ -168,26 +184,29 @@ CHECKS = {
         text="The specification has no dotted strings, so invariance under injective component renaming holds by "
              "construction and is model-checked as RuleSem!RenamingInvariant for the chain renaming the harness uses. "
              "Module rules (all import relations of the bounded world and seeded random worlds with batches), layer "
-             "rules with name-defined layers and visualize() alias maps are each run on the real code under the "
+             "rules with name-defined and mixed name/regex-defined layers and visualize() alias maps are each run on the real code under the "
              "renamings clean / adv (every name a string prefix of the next) / adv2 (substrings and suffixes); the trace "
              "specification requires equal verdicts, message sets, layer tags and label sources after mapping names "
              "back, and the specification's own outcome for each rendering.",
         design_ref="6 (C14)"),
     "C15": dict(
         technique="TLA+ state machine of the whole library (Session.tla: New / Apply / Grow over module, layer and "
-                  "diagram rules) model-checked with TLC (Pure, ObjectStable, Functional, Reapply); tlc -simulate "
+                  "diagram rules, Visualize, the three graph Queries) model-checked with TLC (Pure, ObjectStable, "
+                  "Functional, Reapply, RulesReportQueries, VizTotal); tlc -simulate "
                   "histories replayed on real objects sharing real architectures and validated by the trace "
                   "specifications; 'same' law events for permuted arguments / re-scans; traces compared across hash seeds",
         text="Session.tla makes the outcome of Apply a function of <<configuration, architecture>> and Apply a no-op on "
              "architectures and on the rule object's configuration; TLC checks this on all short histories. Histories of "
-             "40 calls generated by tlc -simulate interleave module rules, layer rules and diagram rules on shared "
+             "40 calls generated by tlc -simulate interleave module rules, layer rules, diagram rules, visualize() calls and "
+             "graph queries on shared "
              "evaluables with rule objects re-applied to several architectures; every Apply is also evaluated in "
              "isolation and must give the same verdict and message, and every step leaves all architectures unchanged. "
              "Permuted / duplicated subject, object, layer and exclusion lists, shuffled directory enumeration and re-scans "
              "are related by 'same' laws; the same rules, layer rules, visualize calls and scans are run in two orders "
              "and compared call by call; graph construction is compared between shuffled listings of the same modules "
              "and imports; and a mixed bag of episodes is run in fresh interpreters under 8 PYTHONHASHSEED values whose "
-             "traces must be identical.",
+             "traces must be identical. Trees in which a directory is a symbolic link to another one, and real source trees "
+             "found on this machine, are re-scanned under shuffled enumeration.",
         design_ref="6 (C15)"),
     "C17": dict(
         technique="TLA+ specification of plot labels (Labels.tla) model-checked with TLC over all alias maps of a "
@@ -196,7 +215,8 @@ CHECKS = {
         text="Labels!LabelSource decides which aliased module heads a module's label (nearest aliased ancestor-or-self "
              "by whole components). TLC checks totality, nearest-ancestor, locality of a new alias over all alias maps "
              "of the bounded tree (including aliases of non-existing modules). Each emitted map and seeded random "
-             "trees/maps (nested aliases, alias texts with dots and regex metacharacters, spacing option, random drawing "
+             "trees/maps (nested aliases, alias texts with dots and regex metacharacters, aliases equal to the module's own "
+             "name, spacing option, random drawing "
              "options) are passed to the real visualize(); the keyword arguments received by the drawing backend are "
              "validated: every module labelled exactly once with the specified label, unknown aliased module rejected "
              "naming it, other options unchanged; each call repeated under collision-free and adversarial renamings, on "
